@@ -41,6 +41,13 @@ def parseOpts (s : String) : Option Extract.Opts :=
     else if t.startsWith "w" then (parseHex (t.drop 1).toString).map (fun d => { o with extractPath := some d.toList })
     else none) {}
 
+/-- the world of the sandbox runs: `/root` (cwd), `/outside/canary`, `/outside/sub/` (0700) -/
+def sandboxFs (root : Bool) (absp : List UInt8) : Fs.St :=
+  { root := root, cwd := ["root".toUTF8.toList], absPrefix := absp,
+    ents := [(["root".toUTF8.toList], .dir 0o755 1000), (["outside".toUTF8.toList], .dir 0o755 1000),
+             (["outside".toUTF8.toList, "canary".toUTF8.toList], .file "canary".toUTF8.toList 0o644 1000),
+             (["outside".toUTF8.toList, "sub".toUTF8.toList], .dir 0o700 1000)] }
+
 def addPre (fs : Fs.St) (t : String) : Option Fs.St :=
   match t.splitOn ":" with
   | ["d", p, m] => do
@@ -64,9 +71,7 @@ def opExtract : List String → Option String
       let absp ← parseHex absp
       let ans ← parseHex answers
       let arch ← parseHex hex
-      let fs0 : Fs.St := { root := root == "1", cwd := ["root".toUTF8.toList], absPrefix := absp.toList,
-                           ents := [(["root".toUTF8.toList], .dir 0o755 1000), (["outside".toUTF8.toList], .dir 0o755 1000),
-                                    (["outside".toUTF8.toList, "canary".toUTF8.toList], .file "canary".toUTF8.toList 0o644 1000)] }
+      let fs0 : Fs.St := sandboxFs (root == "1") absp.toList
       let fs1 ← if pre == "-" then some fs0 else (pre.splitOn ",").foldlM addPre fs0
       let r := Extract.run arch o fs1 ans.toList
       let log := ",".intercalate (r.fs.log.reverse.map (fun m => m.op ++ ":" ++ pathStr m.path))
@@ -82,9 +87,7 @@ def opExtract : List String → Option String
       if cmd == "p" then
         some ("stdout=" ++ toHexL (Extract.print arch o))
       else
-      let fs0 : Fs.St := { root := root == "1", cwd := ["root".toUTF8.toList], absPrefix := absp.toList,
-                           ents := [(["root".toUTF8.toList], .dir 0o755 1000), (["outside".toUTF8.toList], .dir 0o755 1000),
-                                    (["outside".toUTF8.toList, "canary".toUTF8.toList], .file "canary".toUTF8.toList 0o644 1000)] }
+      let fs0 : Fs.St := sandboxFs (root == "1") absp.toList
       let fs1 ← if pre == "-" then some fs0 else (pre.splitOn ",").foldlM addPre fs0
       let r := Extract.run arch o fs1 ans.toList
       some (s!"res={if r.result then 1 else 0} abort={if r.aborted then 1 else 0} " ++
